@@ -36,13 +36,44 @@ def fit(fam, ds, cfg="default", seed=None):
     return {"op": "fit", "fam": fam, "ds": ds, "cfg": cfg, "seed": seed}
 
 
+def new(cfg, seed):
+    return {"op": "new", "cfg": cfg, "seed": seed}
+
+
+class Prepared:
+    """a history in which HourlyModel objects are constructed first and used later (settings objects are state)"""
+
+    def __init__(self):
+        self.ops, self.objs = [], []
+
+    def new(self, seed, cfg="default"):
+        self.ops.append(new(cfg, seed))
+        self.objs.append((cfg, seed))
+        return len(self.objs) - 1
+
+    def fit(self, k, ds):
+        cfg, seed = self.objs[k]
+        self.ops.append({"op": "fitobj", "obj": k, "ds": ds, "fam": "hourly", "cfg": cfg, "seed": seed})
+
+    def tojson(self, k):
+        self.ops.append({"op": "tojson", "obj": k})
+
+    def fromjson(self, k):
+        self.ops.append({"op": "fromjson", "obj": k})
+        self.objs.append(self.objs[k])
+        return len(self.objs) - 1
+
+    def immediate(self, op):
+        self.ops.append(op)
+
+
 def tkey(op):
     return (op["fam"], op["ds"], op["cfg"], op["seed"])
 
 
 def must_reproduce(op):
     """the statement speaks about this fit: every family, the hourly model only with a seed"""
-    return op["op"] == "fit" and (op["fam"] != "hourly" or op["seed"] is not None)
+    return op["op"] in ("fit", "fitobj") and (op["fam"] != "hourly" or op["seed"] is not None)
 
 
 def numpy_draw(k, n):
@@ -76,6 +107,7 @@ def build_jobs(run, recl_default):
     for ds in dsh:
         T.append(fit("hourly", ds, "default", sd))
     T.append(fit("hourly", dsh[0], "default", sd + 1))
+    T.append(fit("hourly", dsh[1], "default", sd + 1))
     T.append(fit("hourly", dsh[0], "randsel", sd))
     T.append(fit("hourly", dsh[1], "adaptive", sd))
     T.append(fit("hourly", dsh[0], "silhouette", sd))
@@ -96,8 +128,9 @@ def build_jobs(run, recl_default):
     # reference: every target once, canonical order, one thread
     job("reference", list(T))
     # (i) twice in one process (two processes, to bound the length of one history)
-    half = len(T) // 2
-    for part in (T[:half], T[half:]):
+    TW = list(T) if thorough else rng.sample(T, 8)
+    half = len(TW) // 2
+    for part in (TW[:half], TW[half:]):
         tw = []
         for t in part:
             tw += [t, t]
@@ -136,6 +169,55 @@ def build_jobs(run, recl_default):
     jobs_extra_targets = [fit("hourly", dsh[1], "default", d2)]
     job("rng-perturbed", ops)
     jobs[0]["ops"] = jobs[0]["ops"] + jobs_extra_targets
+    # (vi) models PREPARED first and fitted later: construct/construct/fit/fit in both orders, a default (unseeded) model
+    #      built in between, to_json / from_json / construct+fit of ANOTHER model between constructing a model and fitting it.
+    #      Every deferred fit is a target that is also fitted straight after construction in the reference history.
+    A, B = dsh[0], dsh[1]
+    p = Prepared()
+    a, b, c = p.new(sd), p.new(sd + 1), p.new(drawn)
+    p.fit(a, A), p.fit(b, A), p.fit(c, A)
+    job("prepared-batch", p.ops)
+    p = Prepared()
+    a, b, c = p.new(sd), p.new(sd + 1), p.new(d2)
+    p.fit(c, B), p.fit(b, B), p.fit(a, B)
+    job("prepared-batch", p.ops, threads=8)
+    p = Prepared()
+    a = p.new(sd)
+    u = p.new(None)                                   # a default model in between: its seed is a global draw
+    p.fit(a, A)
+    b = p.new(sd + 1)
+    p.immediate(fit("hourly", B, "default", sd))      # construct + fit + to_json of another model in between
+    p.fit(b, B)
+    p.fit(u, A)
+    job("prepared-interleaved", p.ops)
+    p = Prepared()
+    x = p.new(sd + 1)
+    p.fit(x, A)
+    a = p.new(sd)
+    p.tojson(x)                                       # construct / to_json(other) / fit
+    p.fit(a, A)
+    b = p.new(sd)
+    y = p.fromjson(x)                                 # construct / from_json(other) / fit
+    p.fit(b, B)
+    u = p.new(None)
+    p.fit(u, B)
+    c = p.new(sd + 1)
+    p.tojson(u)                                       # to_json of an UNSEEDED fitted model re-draws its seed
+    p.fit(c, B)
+    job("prepared-interleaved", p.ops)
+    if thorough:
+        for j in range(4):
+            p = Prepared()
+            seeds = [sd, sd + 1, sd + 2, None, drawn]
+            rng.shuffle(seeds)
+            ks = [p.new(z, "randsel" if (z == sd + 2) else "default") for z in seeds]
+            order = list(range(len(ks)))
+            rng.shuffle(order)
+            for i in order:
+                z = seeds[i]
+                ds = dsh[2] if z == sd + 2 else (A if z == drawn else rng.choice([A, B]) if z in (sd, sd + 1) else A)
+                p.fit(ks[i], ds)
+            job("prepared-batch", p.ops, threads=(1, 8)[j % 2])
     # (iv) alone in a fresh process
     singles = list(T) if thorough else rng.sample(T, 5)
     for i, t in enumerate(singles):
@@ -297,6 +379,17 @@ def coq_op(op, recl_default):
         return "(FitHourly %s %s %s)" % (zlit(ds), c, "None" if seed is None else "(Some %s)" % zlit(seed))
     if op["op"] == "predict":
         return "(Predict %d)" % op["ref"]
+    if op["op"] == "new":
+        cfg = op["cfg"]
+        c = "{| h_id := %s; h_recluster := %d; h_silhouette := %s |}" % (
+            zlit(CFG_ID[cfg]), 1 if cfg == "recluster1" else recl_default, coq_bool(cfg == "silhouette"))
+        return "(NewHourly %s %s)" % (c, "None" if op["seed"] is None else "(Some %s)" % zlit(op["seed"]))
+    if op["op"] == "fitobj":
+        return "(FitObj %d %s)" % (op["obj"], zlit(op["ds"]))
+    if op["op"] == "tojson":
+        return "(ToJson %d)" % op["obj"]
+    if op["op"] == "fromjson":
+        return "(FromJson %d)" % op["obj"]
     if op["op"] == "rng":
         # the worker does np.random.seed(k) and then, when n > 0, np.random.random(n): two model operations
         return None
@@ -430,11 +523,22 @@ def main():
             run.corr_failures.append({"stream": "histories", "case": {"label": j["label"], "threads": j["threads"]},
                                       "impl": pools, "model": "pool size = environment of the process"})
     # ---- step 3: oracle
-    oracle(run, jobs, results)
+    groups = oracle(run, jobs, results)
+    # are the sampled data sets seed-sensitive at all (otherwise a leaked / swapped seed could not show)?
+    per_ds = {}
+    for (fam, ds, cfg, seed), lst in groups.items():
+        if fam == "hourly" and cfg == "default":
+            ok = [o for _, _, _, o in lst if "error" not in o]
+            if ok:
+                per_ds.setdefault(ds, set()).add(ok[0].get("json_noseed"))
+    sens = sum(1 for v in per_ds.values() if len(v) > 1)
+    run.dist("hourly data sets on which different seeds give different models", "%d of %d" % (sens, len(per_ds)))
+    if per_ds and not sens:
+        run.log("note: on none of the sampled hourly data sets did the seed change the model; prepared-batch contexts are blind this run")
     for j, r in zip(jobs, results):
         for op, o in zip(j["ops"], r["obs"]):
-            if op["op"] == "fit":
-                run.count((j["label"], j["threads"], j["imports"]) + tkey(op), "error" not in o)
+            if op["op"] in ("fit", "fitobj"):
+                run.count((j["label"], j["threads"], j["imports"], op["op"]) + tkey(op), "error" not in o)
                 run.dist("family/settings", "%s/%s%s" % (op["fam"], op["cfg"], "" if op["fam"] != "hourly" else ("/seeded" if op["seed"] is not None else "/unseeded")))
                 run.dist("context", "%s thr=%d" % (j["label"], j["threads"]))
             else:
